@@ -169,8 +169,10 @@ class Check:
             'coverage': cov, 'assumptions': self.assumptions, 'wall_s': round(wall, 2),
             'violations': sum(self.violation_counts.get(k, 0) for k in set(k for k, _, _ in reported)),
         }
-        os.makedirs(os.path.join(VERIF, 'evidence'), exist_ok=True)
-        with open(os.path.join(VERIF, 'evidence', self.prop + '.json'), 'w') as f:
+        # runs against a scratch copy of the repository (mutant / seeded-change testing) keep their evidence apart
+        evdir = os.environ.get('VERIF_EVIDENCE_DIR') or os.path.join(VERIF, 'evidence')
+        os.makedirs(evdir, exist_ok=True)
+        with open(os.path.join(evdir, self.prop + '.json'), 'w') as f:
             json.dump(ev, f, indent=1, default=str)
             f.write('\n')
         for key in sorted(known_hit):
